@@ -198,6 +198,11 @@ class C09Engine(Engine):
             return ("reject", k.replace("_", "-") + "-absent", err)
         if k == "read":
             return ("accept", "read-" + op[2]) if op[1] in m else ("veto", "unknown handle")
+        if k == "t_ctor_foreign_idx":
+            # Table(..., indexes=[Index([column of ANOTHER table])]) - refused like add_index refuses it
+            if op[1] not in m or m[op[1]]["kind"] != "column" or m[op[1]]["table"] is None:
+                return ("veto", "needs an owned column")
+            return ("reject", "ctor-index-foreign-col", ["ColumnNotFoundError"])
         if k in ("t_del_col_at", "t_del_idx_at"):
             _, t, pos = op
             field = "cols" if k == "t_del_col_at" else "idxs"
@@ -274,6 +279,11 @@ class C09Engine(Engine):
         if k == "rename":
             setattr(real[op[1]], op[2], op[3])
             return None
+        if k == "t_ctor_foreign_idx":
+            C = self.env.C
+            own = C.Column("own_col", "int")
+            subs = [own, self.real[op[1]]] if op[2] else [self.real[op[1]]]
+            return C.Table("ctor_probe", columns=[own], indexes=[C.Index(subs, name="bad")])
         if k == "read":
             # evaluating a rendering is a read: whatever it returns or raises, the container must not change
             try:
@@ -476,7 +486,7 @@ def gen_universe(rng: random.Random, saturated: bool = False) -> World:
     return w
 
 
-OPW = {"add": 30, "delete": 18, "rename": 12, "read": 4, "add_bad": 2, "delete_bad": 2, "delete_project": 2,
+OPW = {"add": 30, "delete": 18, "rename": 12, "read": 4, "t_ctor_foreign_idx": 1, "add_bad": 2, "delete_bad": 2, "delete_project": 2,
        "t_add_col": 5, "t_del_col": 5, "t_del_col_at": 3, "t_add_idx": 6, "t_del_idx": 4, "t_del_idx_at": 3,
        "t_add_bad": 2}
 BAD = ["str", "int", "column", "note", "index", "enumitem", "dict", "expression"]
@@ -509,6 +519,8 @@ def draw_op(rng: random.Random, eng: C09Engine, weights: Dict[str, float]) -> Li
         pool = [h for h, d in m.items() if d["kind"] in ("db", "db", "table", "ref", "enum")]
         h = db if rng.random() < 0.6 else rng.choice(pool)
         return ["read", h, rng.choice(["sql", "dbml"])]
+    if k == "t_ctor_foreign_idx":
+        return ["t_ctor_foreign_idx", rng.choice(w.handles("column")), rng.random() < 0.5]
     if k == "add_bad":
         return ["add_bad", db, rng.choice(BAD + ["none"])]
     if k == "delete_bad":
